@@ -288,10 +288,24 @@ def write_evidence(mod, tier, seed, merged, wall, nviol, nshards):
     return ev
 
 
+def limit_memory():
+    """Safety net: a runaway case must end as a MemoryError in this process (harness error, exit 2), never as an
+    out-of-memory kill of the machine.  8 GiB of address space per process is 40 times what a shard uses."""
+    try:
+        import resource
+        cap = int(os.environ.get('VERIF_MEM_CAP_MB', '8192')) << 20
+        soft, hard = resource.getrlimit(resource.RLIMIT_AS)
+        if hard == resource.RLIM_INFINITY or hard > cap:
+            resource.setrlimit(resource.RLIMIT_AS, (cap, hard))
+    except Exception:
+        pass
+
+
 def main(argv):
     if len(argv) < 2:
         print(__doc__)
         return 2
+    limit_memory()
     pid = argv[0].upper()
     t0 = time.monotonic()
     seed = seed_value()
